@@ -349,9 +349,23 @@ def pkg_prefix():
     return os.path.dirname(fastparquet.__file__) + os.sep
 
 
-def make_tracer(prefix, on_line):
-    """A sys.settrace function that calls on_line(frame) at every line event of frames whose code
-    lives under `prefix` (the fastparquet package actually imported)."""
+def make_tracer(prefix, on_line, opcodes=False):
+    """A sys.settrace function that calls on_line(frame) at every line event (opcodes=False) or at every
+    bytecode instruction (opcodes=True: CPython's own preemption points are a subset of these) of frames
+    whose code lives under `prefix` (the fastparquet package actually imported)."""
+    if opcodes:
+        def local(frame, event, arg):
+            if event == "opcode":
+                on_line(frame)
+            return local
+
+        def glob(frame, event, arg):
+            if frame.f_code.co_filename.startswith(prefix):
+                frame.f_trace_opcodes = True
+                return local
+            return None
+        return glob
+
     def local(frame, event, arg):
         if event == "line":
             on_line(frame)
@@ -365,9 +379,35 @@ def make_tracer(prefix, on_line):
 
 
 FULL_EVERY = 64
+_OPC_WARM = [False]
 
 
-def trace_footprint(pf, op, shared=None, root=None, full_every=FULL_EVERY):
+def warm_opcodes():
+    """CPython 3.12: the first settrace run that asks for opcode events in a process delivers none
+    (the instrumentation is switched on for later code objects only) - do a throw-away run first."""
+    if _OPC_WARM[0]:
+        return True
+    from fastparquet import util
+    for _ in range(4):
+        n = [0]
+
+        def on(frame):
+            n[0] += 1
+        sys.settrace(make_tracer(pkg_prefix(), on, True))
+        try:
+            util.ensure_bytes("x")
+            util.norm_col_name("a", None)
+        finally:
+            sys.settrace(None)
+        if n[0] > 0:
+            _OPC_WARM[0] = True
+            return True
+    return False
+
+
+
+
+def trace_footprint(pf, op, shared=None, root=None, full_every=FULL_EVERY, opcodes=False):
     """Run `op` alone under the tracer; returns (raw result, changes, number of line events, scratch
     overwrites) where changes = [(tag, fingerprint), ...] with one entry per CHANGE of the fingerprint
     (first entry = state before the operation).  At every line event the cheap signature is taken;
@@ -400,8 +440,8 @@ def trace_footprint(pf, op, shared=None, root=None, full_every=FULL_EVERY):
         n[0] += 1
         sg = fast_sig(conts[0])
         if sg != last_sig[0] or n[0] % full_every == 0:
-            full("%s:%d@%d" % (os.path.basename(frame.f_code.co_filename), frame.f_lineno, n[0]))
-    tr = make_tracer(prefix, on_line)
+            full("%s:%d@%d" % (os.path.basename(frame.f_code.co_filename), frame.f_lineno or 0, n[0]))
+    tr = make_tracer(prefix, on_line, opcodes)
     sys.settrace(tr)
     try:
         res = run_op_safe(pf, op, shared)
@@ -493,7 +533,7 @@ class Sched:
             self.sems[nxt].release()
 
 
-def forced_run(pf, ops, plan, shared=None, timeout=60.0, root=None):
+def forced_run(pf, ops, plan, shared=None, timeout=60.0, root=None, opcodes=False):
     """Run ops[i] in thread i on the shared handle under the deterministic scheduler.
     Returns (raw results, steps per thread, deadlocked?)."""
     prefix = pkg_prefix()
@@ -520,7 +560,7 @@ def forced_run(pf, ops, plan, shared=None, timeout=60.0, root=None):
     def body(tid):
         try:
             sch.wait_turn(tid)
-            sys.settrace(make_tracer(prefix, lambda frame: sch.on_line(tid, wrote)))
+            sys.settrace(make_tracer(prefix, lambda frame: sch.on_line(tid, wrote), opcodes))
             try:
                 res[tid] = run_op_safe(pf, ops[tid], shared)
             finally:
@@ -538,13 +578,13 @@ def forced_run(pf, ops, plan, shared=None, timeout=60.0, root=None):
     return res, list(sch.steps), sch.dead or any(t.is_alive() for t in ts)
 
 
-def count_steps(pf, op, shared=None):
-    """number of line events of op run alone (on this handle)"""
+def count_steps(pf, op, shared=None, opcodes=False):
+    """number of line (or opcode) events of op run alone (on this handle)"""
     n = [0]
 
     def on_line(frame):
         n[0] += 1
-    sys.settrace(make_tracer(pkg_prefix(), on_line))
+    sys.settrace(make_tracer(pkg_prefix(), on_line, opcodes))
     try:
         run_op_safe(pf, op, shared)
     finally:
@@ -753,7 +793,7 @@ def tree_forced(tree, name, k):
     return res[1]
 
 
-def storm_run(pf, op_a, op_b, shared=None, every=1, phase=0, timeout=120.0, max_calls=100000):
+def storm_run(pf, op_a, op_b, shared=None, every=1, phase=0, timeout=120.0, max_calls=100000, opcodes=False):
     """Two real threads: thread 1 runs op_b and is preempted at every `every`-th line event of
     fastparquet code; at each preemption thread 0 runs op_a once, to completion (a thread issuing the
     same operation again and again).  Deterministic.  Returns (distinct raw results of op_a as a list,
@@ -797,7 +837,7 @@ def storm_run(pf, op_a, op_b, shared=None, every=1, phase=0, timeout=120.0, max_
             dead[0] = True
 
     def body_b():
-        sys.settrace(make_tracer(prefix, on_line))
+        sys.settrace(make_tracer(prefix, on_line, opcodes))
         try:
             res_b[0] = run_op_safe(pf, op_b, shared)
         finally:
